@@ -205,8 +205,8 @@ PROFILES = {
 }
 
 SIZES = {  # (sim traces per worker, depth, OneIn, sim timeout s, mc timeout s)
-    "quick": dict(num=40, depth=40, onein=12, simt=60, mct=150, maxbeh=1200, rich=120),
-    "thorough": dict(num=250, depth=60, onein=12, simt=420, mct=1500, maxbeh=9000, rich=1500),
+    "quick": dict(num=40, depth=40, onein=12, simt=60, mct=900, maxbeh=1200, rich=120),
+    "thorough": dict(num=250, depth=60, onein=12, simt=420, mct=3000, maxbeh=9000, rich=1500),
 }
 
 
